@@ -109,6 +109,7 @@ void rt_cover_name (int counter, const char *name);
 /* ---- futex fault plan (Mode B and Mode A) -------------------------------------------- */
 /* the k-th futex wait of the round issued by thread tid (k from 0) returns -1/errs[k]
    instead of waiting when errs[k] != 0 */
+#define RT_FAULT_SPURIOUS_WAKE (-1)   /* plan entry: the futex wait returns 0 at once although nobody posted (a stale wake-up) */
 void rt_fault_plan (int tid, const int *errs, int n);
 void rt_fault_random (unsigned ppm);  /* random EINTR/EAGAIN injection probability */
 unsigned long rt_faults_fired (void);
